@@ -18,10 +18,10 @@ const (
 )
 
 var famBounds = map[string][3]int64{
-	"ptrfan-domainsearch":      {32847, 0, 548},
-	"ptrfan-ntp-fqdn":          {32849, 0, 548},
-	"ptrfan-fqdn":              {32854, 0, 548},
-	"ptrfan-overlong-name":     {123, 0, 16},
+	"ptrfan-domainsearch":  {32847, 0, 548},
+	"ptrfan-ntp-fqdn":      {32849, 0, 548},
+	"ptrfan-fqdn":          {32854, 0, 548},
+	"ptrfan-overlong-name": {123, 0, 16},
 	// the pinned decoder rejects pointer chains (measured {342, 0, 118}); the bound is the one of a plain pointer fan,
 	// which is what a decoder that follows chains within the 255-octet limit would cost
 	"ptrchain-fan":             {32847, 0, 548},
@@ -29,6 +29,10 @@ var famBounds = map[string][3]int64{
 	"unterminated-label-chain": {1030, 0, 16},
 	"many-short-names":         {267, 0, 49},
 	"relay-nesting":            {101, 217, 46},
+	"relay-reply-nesting":      {101, 217, 46},
+	"relay-mixed-nesting":      {98, 217, 43},
+	"duid-flood":               {151, 0, 37},
+	"byte-string-flood":        {133, 0, 33},
 	"ia-nesting":               {175, 648, 111},
 	"iaaddr-nesting":           {105, 648, 50},
 	"4rd-nesting":              {291, 217, 199},
